@@ -615,6 +615,9 @@ func init() {
 				for k := 0; k < 8 && f == ""; k++ {
 					f = c08InFlight(k&1 == 1, k&2 == 2, k>>2)
 				}
+				for k := 0; k < 2 && f == ""; k++ {
+					f = c08SlowFinal(k == 1, k == 0)
+				}
 				if f != "" {
 					ctx.Case(c, "", "real-ticker", "")
 					ctx.Fail("close_is_a_complete_idempotent_barrier", f, c, nil)
@@ -680,6 +683,15 @@ func init() {
 			if f != "" {
 				ctx.Fail("close_is_a_complete_idempotent_barrier", f, cs, nil)
 				break
+			}
+		}
+		// Close's own final pass is slow (one reporter call takes 700 ms)
+		for k := 0; k < 2; k++ {
+			cs := map[string]interface{}{"slow_final_pass": true, "cached": k == 1, "interval_1h": k == 0}
+			f := c08SlowFinal(k == 1, k == 0)
+			ctx.Case(cs, "", "slow-final-pass", "")
+			if f != "" {
+				ctx.Fail("close_is_a_complete_idempotent_barrier", f, cs, nil)
 			}
 		}
 		// several goroutines call the root's Close at the same moment (uncontrolled: the test-and-set in
